@@ -98,6 +98,12 @@ CLAIMED = {
         note="Sessions <= 3 actions (those containing save/load kept first when capped); Textual UI not started; hand-edited initial files that were never saved are compared by effective entries instead of bytes.",
         design_ref="DESIGN.md section 3, C16",
     ),
+    "C17": dict(
+        technique="TLA+ model of MenuConfigState navigation and editing (spec/KNav.tla: shown_nodes incl. choices defined in several places and implicit sub-menus, enter / leave / jump_to / toggle_show_all / change_node / typed input / reset / load, total actions with an explicit error state); TLC explores all event sequences (spec/MC_Nav.tla) with SelValid as invariant and records every sequence ending in the error state; every transition is replayed on the real MenuConfigState through the front end's handlers and validated by TLC (spec/MC_NavCheck.tla)",
+        text="Model checking: all event sequences up to the bound are explored on the specification; each is executed on a real headless session and TLC compares current menu, displayed rows, highlighted row, show-all flag and every value after every event; any exception (NoRaise), a highlighted row outside the list, a changed locked option, a non-assignable value applied, or an accepted input that is not the option's value afterwards is a violation.",
+        note="Events on rows 0-4, 7 typed literals, jump to every node, loads that hide options; sequences <= 3; Textual widgets not started (their handlers' calls into the model are reproduced); tree structure read from the real object, visibility conditions from the abstract program.",
+        design_ref="DESIGN.md section 3, C17",
+    ),
 }
 
 REASON_PENDING = "check not built yet in this session (planned in DESIGN.md section 3); not claimed until its TLA+ model and conformance harness exist"
